@@ -1076,6 +1076,157 @@ def boundary_batch_oracle(ctx, workdir):
     return n
 
 
+# ---------------------------------------------------------------------- attribute operations addressed through the ID placeholder
+PH_EXTRA = {'names': ['a', 'b'], 'groups': ['g', 'h'], 'asi': [['ns0', 'd0'], ['ns1', 'd1']]}
+CREATORS = ['create', 'register', 'create_key_pair', 'derive_key']
+
+
+def ph_extra_attrs():
+    out = []
+    for i, n in enumerate(PH_EXTRA['names']):
+        out.append(kdrv.attr(AT.NAME, kdrv.name_value(n), i))
+    for i, g in enumerate(PH_EXTRA['groups']):
+        out.append(kdrv.attr(AT.OBJECT_GROUP, g, i))
+    for i, a in enumerate(PH_EXTRA['asi']):
+        out.append(kdrv.attr(AT.APPLICATION_SPECIFIC_INFORMATION, {'application_namespace': a[0], 'application_data': a[1]}, i))
+    return out
+
+
+def creator_item(kind, otype='SYMMETRIC_KEY'):
+    """A creating operation in a shape that succeeds; the new object carries PH_EXTRA.  Base key for DeriveKey is object 1."""
+    A = enums.CryptographicAlgorithm
+    if kind == 'create':
+        return kdrv.create(attrs=kdrv.sym_attrs(A.AES, 256, kdrv.ENC_DEC) + ph_extra_attrs())
+    if kind == 'register':
+        ot = TYPES[otype]
+        attrs = ([] if ot == OT.OPAQUE_DATA else [kdrv.attr(AT.CRYPTOGRAPHIC_USAGE_MASK, list(kdrv.ENC_DEC))]) + ph_extra_attrs()
+        return kdrv.register(ot, attrs=attrs)
+    if kind == 'create_key_pair':
+        return kdrv.create_key_pair(common=[kdrv.attr(AT.CRYPTOGRAPHIC_ALGORITHM, A.RSA), kdrv.attr(AT.CRYPTOGRAPHIC_LENGTH, 1024)]
+                                    + ph_extra_attrs())
+    if kind == 'derive_key':
+        params = cattrs.DerivationParameters(
+            cryptographic_parameters=cattrs.CryptographicParameters(hashing_algorithm=enums.HashingAlgorithm.SHA_256))
+        return kdrv.derive_key(['1'], method=enums.DerivationMethod.HASH, params=params,
+                               attrs=kdrv.sym_attrs(A.AES, 128, kdrv.ENC_DEC) + ph_extra_attrs())
+    raise ValueError(kind)
+
+
+def placeholder_steps():
+    """UID-less attribute requests (the engine takes the ID placeholder): changing and refused ones, both protocol forms."""
+    one = [
+        {'form': 'mod', 'attr': ['Name', 1, ['T', 'q']]},
+        {'form': 'del', 'name': 'Object Group', 'idx': 0},
+        {'form': 'mod', 'attr': ['Application Specific Information', None, ['A', 'n', 'd']]},
+        {'form': 'mod', 'attr': ['Sensitive', None, ['B', True]], 'ver': (1, 4)},
+        {'form': 'mod', 'attr': ['State', None, ['I', 2]]},
+        {'form': 'del', 'name': 'Name', 'idx': 9},
+        {'form': 'mod', 'attr': ['Name', -1, ['T', 'q']]},
+    ]
+    two = [
+        {'form': 'set', 'new': ['Sensitive', ['B', True]]},
+        {'form': 'mod', 'new': ['Name', ['T', 'q']], 'cur': ['T', 'b']},
+        {'form': 'del', 'cur': ['Object Group', ['T', 'h']]},
+        {'form': 'del', 'ref': 'Application Specific Information'},
+        {'form': 'set', 'new': ['State', ['I', 2]]},
+        {'form': 'mod', 'new': ['Name', ['T', 'q']], 'cur': ['T', 'zz']},
+        {'form': 'del', 'cur': ['Name', ['T', 'zz']]},
+    ]
+    return [dict(x, v=1) for x in one] + [dict(x, v=2) for x in two]
+
+
+def ph_setup(eng):
+    """object 1: an active base key owned by alice that may derive keys; object 2: a bystander."""
+    r = eng.request([kdrv.register(OT.SYMMETRIC_KEY, attrs=[kdrv.attr(AT.CRYPTOGRAPHIC_USAGE_MASK, [enums.CryptographicUsageMask.DERIVE_KEY])])],
+                    version=OBS_VER, user='alice')
+    if not kdrv.ok(r['items'][0]):
+        raise RuntimeError('placeholder setup: cannot register the base key')
+    eng.request([kdrv.activate('1')], version=OBS_VER, user='alice')
+    make_object(eng, dict(PH_EXTRA, type='SECRET_DATA', user='alice', via='register', sens=None, mask=12))
+
+
+_TWIN = {}
+
+
+def run_placeholder_batch(ctx, w, workdir):
+    """w = {'creator', 'otype', 'step' (uid None), 'version'}: ONE request [creating operation; attribute operation without an
+    identifier].  A twin engine receives the creating operation alone and gives the state the new object has before the
+    attribute operation.  Failed => the observation equals the twin's everywhere; success => exactly the addressed instance
+    of the object the placeholder names differs.  Judged after the batch and after a reload."""
+    ver = tuple(w['version'])
+    st = dict(w['step'], uid=None, k='attr', user='alice', ver=list(ver))
+    obs = {}
+    tkey = (w['creator'], w.get('otype', 'SYMMETRIC_KEY'), ver)
+    if tkey in _TWIN:               # the twin depends only on the creating operation, its object type and the version
+        obs['twin'] = _TWIN[tkey]
+    for which in ('twin', 'main'):
+        if which in obs:
+            continue
+        eng = fresh_engine(workdir)
+        try:
+            ph_setup(eng)
+            items = [creator_item(w['creator'], w.get('otype', 'SYMMETRIC_KEY'))] + ([build_item(st)] if which == 'main' else [])
+            r = eng.request(items, version=ver, user='alice')
+            if r['error'] is not None or not r['items'] or not kdrv.ok(r['items'][0]):
+                raise RuntimeError('creating operation %s failed under %r: %r' % (
+                    w['creator'], ver, r['error'] or (r['items'][0]['reason'], r['items'][0]['message'])))
+            target = kdrv.first_uid(r['items'][0])
+            res = [('SUCCESS' if kdrv.ok(it) else it['reason']) for it in r['items']]
+            d1 = eng.dump()
+            o1, _ = observe(eng, d1)
+            eng.restart()
+            d2 = eng.dump()
+            o2, _ = observe(eng, d2)
+            obs[which] = {'target': target, 'res': res, 'after': o1, 'reload': o2, 'prot': protected_from_dump(d1), 'prot2': protected_from_dump(d2)}
+        finally:
+            eng.close()
+    _TWIN[tkey] = obs['twin']
+    t, m = obs['twin'], obs['main']
+    if len(m['res']) != 2:
+        raise RuntimeError('placeholder batch answered %d items' % len(m['res']))
+    okk = m['res'][1] == 'SUCCESS'
+    wit = dict(w, results=m['res'], placeholder_object=m['target'], without_attribute_item=t['after'],
+               after_batch=m['after'], after_reload=m['reload'])
+    want = [dict(o) for o in t['after']]
+    if okk:
+        tgt = [o for o in want if str(o['uid']) == str(t['target'])]
+        exp = expected_after_success(st, ver, tgt[0]) if tgt else 'success without an object named by the placeholder'
+        if isinstance(exp, str):
+            ctx.violation(sig_of(st, ver, 'no-exact-effect-possible'), wit, exp)
+            return m['res']
+        tgt[0][exp[0]] = exp[1]
+    for phase, got, prot in (('after the batch', m['after'], m['prot']), ('after a reload', m['reload'], m['prot2'])):
+        if prot != t['prot']:
+            ctx.violation(sig_of(st, ver, 'protected-changed'), wit, 'a protected attribute changed through a placeholder-addressed request (%s)' % phase)
+            break
+        if got != want:
+            diff = [(a.get('uid'), {f: (a[f], b[f]) for f in FIELDS if a[f] != b[f]}) for a, b in zip(want, got) if a != b]
+            if okk:
+                ctx.violation(sig_of(st, ver, 'inexact-effect'), dict(wit, expected_vs_observed=diff),
+                              'a successful placeholder-addressed call did not change exactly the addressed instance (%s)' % phase)
+            else:
+                ctx.violation(sig_of(st, ver, 'failure-changed-store'), dict(wit, expected_vs_observed=diff),
+                              'an unsuccessful placeholder-addressed call (%s) changed the store (%s)' % (m['res'][1], phase))
+            break
+    return m['res']
+
+
+def placeholder_batch_oracle(ctx, workdir):
+    quick = ctx.tier == 'quick'
+    types = list(TYPES)
+    n = 0
+    for ci, creator in enumerate(CREATORS):
+        for j, s0 in enumerate(placeholder_steps()):
+            ver = V2 if s0['v'] == 2 else tuple(s0.get('ver', V1[(j + ci + ctx.seed) % 5]))
+            step = {k: v for k, v in s0.items() if k not in ('v', 'ver')}
+            for otype in ([types[(j + ctx.seed) % 7]] if (quick or creator != 'register') else types):
+                res = run_placeholder_batch(ctx, {'creator': creator, 'otype': otype, 'step': step, 'version': list(ver)}, workdir)
+                n += 1
+                ctx.count('placeholder.%s.%s' % (creator, 'SUCCESS' if res[1] == 'SUCCESS' else 'failed'))
+                ctx.case_seen(('placeholder', creator, otype if creator == 'register' else '-', json.dumps(s0, sort_keys=True), tuple(res)), nontrivial=True)
+    return n
+
+
 def batch_frame_oracle(ctx, rng, workdir, rounds):
     """A failed attribute item followed by a succeeding one in the same batch (shared SQLAlchemy session, CONTINUE):
     the failed item must leave no trace in what the later commit writes."""
@@ -1221,6 +1372,8 @@ def run(ctx):
              'inexact-effect': 3,
              'failed-batch-item-left-trace': 4, 'no-exact-effect-possible': 5}
     n = batch_frame_oracle(ctx, ctx.subrng('batch'), work, 30 if ctx.tier == 'quick' else 300)
+    np_ = placeholder_batch_oracle(ctx, work)
+    ctx.log('placeholder oracle: %d batches [Create | Register | CreateKeyPair | DeriveKey ; attribute operation without identifier]' % np_)
     nb = boundary_batch_oracle(ctx, work)
     ctx.log('boundary batch oracle: %d two-item batches (Continue and Stop), judged after the batch and after a reload' % nb)
     ctx.violations.sort(key=lambda v: order.get(v['signature'].get('kind'), 9))
@@ -1239,6 +1392,13 @@ def replay(ctx, data):
     load_local_findings(ctx)
     w = data.get('input') or {}
     hist = w.get('history')
+    if hist is None and 'creator' in w:
+        res = run_placeholder_batch(ctx, {k: w[k] for k in ('creator', 'otype', 'step', 'version') if k in w}, ctx.work)
+        print('batch items:', res)
+        print('violations reproduced:', len(ctx.violations))
+        for v in ctx.violations[:5]:
+            print(' -', v['what'], json.dumps(v['signature'], sort_keys=True))
+        return 1 if ctx.violations else 0
     if hist is None and 'items' in w:
         res = run_boundary_batch(ctx, {k: w[k] for k in ('objects', 'items', 'version', 'option')}, ctx.work)
         print('batch items:', res)
